@@ -117,6 +117,19 @@ pub fn replay(check: &str, i: &Value) -> Option<CheckResult> {
     if check == "lab" {
         return crate::props::c12::replay_for(P, i);
     }
+    if check == "datetime" {
+        let t = crate::table();
+        let name = i.get("type")?.as_str()?;
+        let bytes = unhex(i.get("bytes")?.as_str()?);
+        let e = types().into_iter().find(|e| e.name == name)?;
+        let got = guard(|| (e.decode)(&bytes));
+        let want = decode(&t, &t[name], &bytes);
+        return Some(match (got, want) {
+            (Ok(Ok((d, rest))), Ok((w, wrest))) if d == render(&w) && rest == wrest.len() => Ok(()),
+            (Ok(Err(_)), Err(_)) => Ok(()),
+            (g, _) => Err(Violation::new("datetime", format!("C14 type={name} rel=short-date-time-object kind=reads-beyond-the-object"), format!("{g:?}"), i.clone())),
+        });
+    }
     let t = crate::table();
     let name = i.get("type")?.as_str()?;
     let v: Val = serde_json::from_value(i.get("value")?.clone()).ok()?;
@@ -245,6 +258,71 @@ pub fn run(tier: Tier) -> i32 {
         });
     });
     stats.merge(s);
+    // R4: the date and time objects inside a date/time value are length-prefixed themselves: an object announced shorter than
+    //     usual (date in 3 / 2 / 1 bytes, time in 2 / 1 bytes - right-aligned numbers for the reference reading) is read from
+    //     its own bytes only, whatever stands behind it (the other object, the end of the container, a suffix behind the packet)
+    {
+        let tys2 = types();
+        let mut st = Stats::new();
+        for e in tys2.iter().filter(|e| matches!(e.name, "ReceiptPrintoutCompletion" | "tlv.ReceiptPrintoutCompletion")) {
+            let l = t[e.name].clone();
+            for (k, v) in ctx.sample_values(ctx.seed_for("datetime-short", fnv_str(e.name)), tier.pick(150, 2_000), &strategy_for(&t, e.name, GenCfg::small())).iter().enumerate() {
+                if !is_canonical(&t, &l, v) {
+                    continue;
+                }
+                let Ok(mut gs) = build(&t, &l, v) else { continue };
+                let Some(el) = crate::props::c13::find_datetime(&mut gs) else { continue };
+                let Node::Leaf(b) = &el.node else { continue };
+                if b.len() != 13 {
+                    continue;
+                }
+                let (date, time) = (b[3..7].to_vec(), b[10..13].to_vec());
+                let obj = |tag: u8, val: &[u8]| -> Vec<u8> {
+                    let mut o = vec![0x1f, tag, val.len() as u8];
+                    o.extend_from_slice(val);
+                    o
+                };
+                let variants: Vec<Vec<u8>> = vec![
+                    [obj(0x0f, &time), obj(0x0e, &date[1..])].concat(),
+                    [obj(0x0e, &date[1..]), obj(0x0f, &time)].concat(),
+                    [obj(0x0e, &date[2..]), obj(0x0f, &time)].concat(),
+                    [obj(0x0e, &date), obj(0x0f, &time[1..])].concat(),
+                    [obj(0x0f, &time[1..]), obj(0x0e, &date)].concat(),
+                    [obj(0x0f, &time[2..]), obj(0x0e, &date[3..])].concat(),
+                ];
+                for (vi, leaf) in variants.iter().enumerate() {
+                    let mut g2 = gs.clone();
+                    crate::props::c13::find_datetime(&mut g2).unwrap().node = Node::Leaf(leaf.clone());
+                    let Some(p) = assemble_top(&l, &g2) else { continue };
+                    for sfx in [&[][..], &[0x01], &[0x20, 0x23, 0x12, 0x31], &[0x1f, 0x0e, 0x04, 0x20, 0x23, 0x04, 0x05]] {
+                        if !sfx.is_empty() && l.ctrl.is_none() {
+                            continue;
+                        }
+                        let mut bytes = p.clone();
+                        bytes.extend_from_slice(sfx);
+                        let input = json!({"type": e.name, "bytes": hex(&bytes), "variant": vi});
+                        st.case(true, fnv(&bytes) ^ k as u64);
+                        st.class("date-time-object-announced-shorter");
+                        let got = guard(|| (e.decode)(&bytes));
+                        let want = decode(&t, &l, &bytes);
+                        let r: CheckResult = match (got, want) {
+                            (Err(pn), _) => Err(Violation::new("datetime", format!("C14 type={} rel=short-date-time-object kind=panic", e.name), pn, input)),
+                            (Ok(Ok((d, rest))), Ok((w, wrest))) if d == render(&w) && rest == wrest.len() => Ok(()),
+                            (Ok(Err(_)), Err(_)) => Ok(()),
+                            (Ok(g), w) => Err(Violation::new(
+                                "datetime",
+                                format!("C14 type={} rel=short-date-time-object kind=reads-beyond-the-object", e.name),
+                                format!("bytes {}\n  decode to {:?}\n  the reference reading (each object from its own announced bytes) is {:?}", clip(&hex(&bytes), 300), g.map(|(d, r)| (clip(&d, 200), r)), w.map(|(v, r)| (clip(&render(&v), 200), r.len())).map_err(|e| format!("{e:?}"))),
+                                input,
+                            )),
+                        };
+                        ctx.record(r, &mut st);
+                    }
+                }
+            }
+        }
+        stats.merge(st);
+    }
     // the same relations on generated command structs (layouts no shipped packet has)
     match crate::props::c12::lab_side(P, &ctx, tier) {
         Ok(mut s) => {
@@ -258,7 +336,7 @@ pub fn run(tier: Tier) -> i32 {
     }
     ctx.finish(
         stats,
-        "R1: 31 commands x proptest-generated canonical values (incl. bodies pumped to 253..257) x suffixes {empty, every single byte 00..ff, a valid packet, random <= 64 bytes}: decode(packet || s) = (value, s). R2: a group with a tag unknown to the whole tree behind every nested container and at the end of every nested level. R3: every TLV/LLVAR/LLLVAR container at any depth, and the APDU, re-announced 1..3 bytes shorter: error, or exactly the reference reading of the announced bytes. non-trivial = non-empty suffix behind a packet whose last field is greedy (R1), every R2/R3 case; distinct by (type, value, suffix / container, k). Generated structs: a program of random #[derive(Zvt)] command definitions (C12's generator) is compiled against /repo's macro in a private lab crate and R1 (5 suffixes) and R3 (APDU re-announced one byte shorter) are applied to canonical values of each (classes prefixed lab:)",
+        "R1: 31 commands x proptest-generated canonical values (incl. bodies pumped to 253..257) x suffixes {empty, every single byte 00..ff, a valid packet, random <= 64 bytes}: decode(packet || s) = (value, s). R2: a group with a tag unknown to the whole tree behind every nested container and at the end of every nested level. R3: every TLV/LLVAR/LLLVAR container at any depth, and the APDU, re-announced 1..3 bytes shorter: error, or exactly the reference reading of the announced bytes. R4: date / time objects announced shorter than usual inside a date/time value (both orders, with and without a suffix behind the packet) read from their own bytes only (reference reading). non-trivial = non-empty suffix behind a packet whose last field is greedy (R1), every R2/R3 case; distinct by (type, value, suffix / container, k). Generated structs: a program of random #[derive(Zvt)] command definitions (C12's generator) is compiled against /repo's macro in a private lab crate and R1 (5 suffixes) and R3 (APDU re-announced one byte shorter) are applied to canonical values of each (classes prefixed lab:)",
         &["R3 compares with the reference decoder only when both accept; an input the reference rejects gives no verdict", "R2 shares the foreign-tag oracle of C13"],
         false,
     )
